@@ -143,6 +143,32 @@ def build(sc: dict):
             for p in r.network_interface:
                 r.enable_port(p)
         info = {"b_ip": b_ip, "b_net": "10.0.2.0/24", "d_ip": "10.0.2.21"}
+    elif fam == "wireless":
+        # A, C - SW1 - R1 (WirelessRouter: port 2 wired, port 1 = access point) ~~ airspace ~~ R2 (WirelessRouter) - SW2 - B.
+        # The airspace with two enabled access points on one frequency is the wire between their ports (Model/Filter: kind router;
+        # WirelessAccessPoint.receive_frame has the shape of RouterInterface.receive_frame - Gen.FilterPower.wapReceive).
+        from primaite.simulator.network.hardware.nodes.network.wireless_router import WirelessRouter
+        b_ip = "10.0.2.20"
+        add(_host(Computer, "A", A_IP, "10.0.1.1", shut)); add(_host(Computer, "C", C_IP, "10.0.1.1", shut))
+        add(_host(Server, "B", b_ip, "10.0.2.1", shut))
+        sw("SW1"); sw("SW2")
+        for name in ("R1", "R2"):
+            r = WirelessRouter.from_config({"type": "wireless-router", "hostname": name, "start_up_duration": 0,
+                                            "shut_down_duration": shut}, airspace=net.airspace)
+            r.power_on(); add(r)
+            r.acl.add_rule(action=ACLAction.PERMIT, position=10)
+        N["R1"].configure_router_interface("10.0.1.1", "255.255.255.0")
+        N["R2"].configure_router_interface("10.0.2.1", "255.255.255.0")
+        link("A", 1, "SW1", 1, "A-SW1"); link("C", 1, "SW1", 2, "C-SW1"); link("SW1", 6, "R1", 2, "SW1-R1")
+        link("R2", 2, "SW2", 6, "R2-SW2"); link("B", 1, "SW2", 1, "SW2-B")
+        N["R1"].configure_wireless_access_point("10.0.9.1", "255.255.255.252")
+        N["R2"].configure_wireless_access_point("10.0.9.2", "255.255.255.252")
+        N["R1"].route_table.add_route("10.0.2.0", "255.255.255.0", "10.0.9.2")
+        N["R2"].route_table.add_route("10.0.1.0", "255.255.255.0", "10.0.9.1")
+        for r in (N["R1"], N["R2"]):
+            for p_ in r.network_interface:
+                r.enable_port(p_)
+        info = {"b_ip": b_ip, "b_net": "10.0.2.0/24"}
     elif fam == "firewall":
         zones = {"ext": ("10.0.1", 1), "int": ("10.0.2", 2), "dmz": ("10.0.3", 3)}
         za, zb = sc["a_zone"], sc["b_zone"]
@@ -231,6 +257,8 @@ BLOCKS = {
     "routed": ["router_deny_anyany", "router_deny_src_exact", "router_deny_src_range", "router_deny_dst_exact",
                "router_deny_three_protocols", "router_deny_four_protocols", "router_port_a_disabled", "router_port_b_disabled", "router_off", "missing_link",
                "removed_link", "sw2_off", "b_off", "b_nic_disabled"],
+    "wireless": ["router_deny_anyany", "router_deny_dst_exact", "router_deny_src_range", "router_off", "wap_disabled",
+                 "wap_other_frequency", "removed_link", "sw2_off", "b_off"],
     "firewall": ["fw_first_stage_deny", "fw_first_stage_empty", "fw_second_stage_deny", "fw_port_a_disabled", "fw_port_b_disabled",
                  "fw_off", "missing_link", "b_off"],
 }
@@ -240,6 +268,8 @@ def edges(sc: dict) -> List[tuple]:
     fam = sc["family"]
     if fam == "switched":
         return [("A", "SW1"), ("C", "SW1"), ("SW1", "SW2"), ("SW2", "B")]
+    if fam == "wireless":
+        return [("A", "SW1"), ("C", "SW1"), ("SW1", "R1"), ("R1", "R2"), ("R2", "SW2"), ("SW2", "B")]
     if fam == "routed":
         mid = [("R1", "SW2")] if sc.get("routers", 1) == 1 else [("R1", "R2"), ("R2", "SW2")]
         return [("A", "SW1"), ("C", "SW1"), ("SW1", "R1")] + mid + [("SW2", "B")] + ([("SW2", "D")] if sc.get("third_host") else [])
@@ -254,12 +284,18 @@ def protected(sc: dict) -> List[str]:
     NIC-disabled device is included: its own state must not change either)."""
     m = sc["block"]
     if m in ("router_deny_dst_b_only", "fw_deny_dst_b_only"):
-        return ["B"]  # the rule protects B alone: D and SW2 are reached by permitted traffic, by design
+        return ["B"]
+    if m in WC_ROUTER:
+        m = "router_deny_anyany"   # same cut: the router `at` is the barrier
+    if m in WC_FW:
+        m = "fw_first_stage_deny"  # same cut: the firewall is the barrier  # the rule protects B alone: D and SW2 are reached by permitted traffic, by design
     es = edges(sc)
     names = sorted({x for e in es for x in e})
     removed, barrier = [], []
     at = sc.get("at", "R1")
     r_in = ("SW1", "R1") if at == "R1" else ("R1", "R2")
+    if m in ("wap_disabled", "wap_other_frequency"):
+        removed = [("R1", "R2")]
     r_out = ("R1", "SW2") if sc.get("routers", 1) == 1 else (("R1", "R2") if at == "R1" else ("R2", "SW2"))
     if m in ("sw1_uplink_disabled", "sw2_uplink_disabled"):
         removed = [("SW1", "SW2")]
@@ -276,6 +312,8 @@ def protected(sc: dict) -> List[str]:
         removed = [e for e in es if x in e]
     elif m.startswith("router_deny"):
         barrier = [at]
+    elif m in ("wap_disabled", "wap_other_frequency"):
+        pass
     elif m == "router_port_a_disabled":
         removed = [r_in]
     elif m == "router_port_b_disabled":
@@ -307,7 +345,7 @@ def protected(sc: dict) -> List[str]:
 CERTIFIABLE = {"sw1_uplink_disabled", "sw2_uplink_disabled", "sw2_b_port_disabled", "b_nic_disabled", "a_nic_disabled",
                "missing_link", "removed_link", "sw2_off", "sw1_off", "b_off", "router_deny_anyany", "router_port_a_disabled",
                "router_port_b_disabled", "router_off", "fw_first_stage_deny", "fw_first_stage_empty", "fw_port_a_disabled",
-               "fw_port_b_disabled", "fw_off"}
+               "fw_port_b_disabled", "fw_off", "wap_disabled", "wap_other_frequency"}
 
 
 def class_patterns(sc: dict, info: dict) -> List[dict]:
@@ -330,6 +368,15 @@ def class_patterns(sc: dict, info: dict) -> List[dict]:
         return [pat(proto="tcp"), pat(proto="udp"), pat(proto="icmp"), pat(proto="none")]
     if m == "fw_deny_dst_b_only":
         return [pat(dst_ip=info["b_ip"])]
+    if m.endswith("_wc_host_allowlist"):
+        # everything A's side can send with its own addresses (the allow-listed address is nobody's)
+        return [pat(src_ip=info["a_ip"]), pat(src_ip=info["a_ip"].rsplit(".", 1)[0] + ".11")]
+    if m.endswith("_wc_anywc"):
+        return [pat(src_ip="0.0.0.0", src_wc="255.255.255.255")]
+    if m.endswith("_wc_hostwc"):
+        return [pat(dst_ip=info["b_ip"], dst_wc="0.0.0.0"), pat(dst_ip=info["b_ip"], dst_wc="0.0.0.255")]
+    if m.endswith("_wc_noncontig"):
+        return [pat(src_ip=info["a_ip"], src_wc="0.0.0.5")]
     return [pat()]
 
 
@@ -373,13 +420,14 @@ def roles_for(sc: dict) -> Dict[str, str]:
     return {
         "sw1_uplink_disabled": {"SW1": "ifaceDown"}, "sw2_uplink_disabled": {"SW2": "frozen"},
         "sw2_b_port_disabled": {"SW2": "ifaceDown"}, "b_nic_disabled": {"B": "frozen"}, "b_off": {"B": "frozen"},
-        "a_nic_disabled": {"A": "ifaceDown", "C": "ifaceDown"}, "missing_link": {}, "removed_link": {},
+        "a_nic_disabled": {"A": "ifaceDown", "C": "ifaceDown"}, "missing_link": {}, "removed_link": {}, "wap_other_frequency": {},
+        "wap_disabled": {at: "ifaceDown" if at == "R1" else "frozen"},
         "sw2_off": {"SW2": "frozen"}, "sw1_off": {"SW1": "frozen"}, "router_off": {at: "routerOff"}, "fw_off": {"FW": "frozen"},
         "router_port_a_disabled": {at: "frozen"}, "router_port_b_disabled": {at: "ifaceDown"},
         "fw_port_a_disabled": {"FW": "frozen"}, "fw_port_b_disabled": {"FW": "ifaceDown"},
         "fw_first_stage_deny": {"FW": "fwDeny"}, "fw_first_stage_empty": {"FW": "fwDeny"}, "fw_second_stage_deny": {"FW": "fwDeny"},
         "fw_deny_dst_b_only": {"FW": "fwDeny"},
-    }.get(m, {at: "routerDeny"} if m.startswith("router_deny") else {})
+    }.get(m, {at: "routerDeny"} if (m.startswith("router_deny") or m in WC_ROUTER) else {"FW": "fwDeny"} if m in WC_FW else {})
 
 
 def topo_lines(sc: dict, sim, N, prot: List[str], info: Optional[dict] = None) -> List[str]:
@@ -422,6 +470,16 @@ def topo_lines(sc: dict, sim, N, prot: List[str], info: Optional[dict] = None) -
         a, b = link.endpoint_a, link.endpoint_b
         lines.append(f"t-wire {idx[a._connected_node.config.hostname]} {a.port_num - 1} "
                      f"{idx[b._connected_node.config.hostname]} {b.port_num - 1}")
+    air_pairs = []
+    for _freq, wis in sim.network.airspace.wireless_interfaces_by_frequency.items():
+        on_air = [w for w in wis if w.enabled and w._connected_node is not None]
+        if len(on_air) > 2:
+            raise RuntimeError("more than two access points on one frequency: the airspace is then not a wire (not modelled)")
+        if len(on_air) == 2:
+            air_pairs.append(tuple(on_air))
+            a, b = on_air
+            lines.append(f"t-wire {idx[a._connected_node.config.hostname]} {a.port_num - 1} "
+                         f"{idx[b._connected_node.config.hostname]} {b.port_num - 1}")
     o = lambda v: "-" if v is None else str(v)
     for c in class_patterns(sc, info or {"a_ip": A_IP, "b_ip": "10.0.2.20"}):
         lines.append(f"t-class {o(c['proto'])} {o(c['src_ip'])} {o(c['src_wc'])} {o(c['dst_ip'])} {o(c['dst_wc'])} - -")
@@ -440,6 +498,8 @@ def topo_lines(sc: dict, sim, N, prot: List[str], info: Optional[dict] = None) -
 
     for link in sim.network.links.values():
         a, b = link.endpoint_a, link.endpoint_b
+        parent[find((a._connected_node.config.hostname, a.port_num))] = find((b._connected_node.config.hostname, b.port_num))
+    for a, b in air_pairs:
         parent[find((a._connected_node.config.hostname, a.port_num))] = find((b._connected_node.config.hostname, b.port_num))
     for h in names:
         if isinstance(N[h], Switch):
@@ -493,7 +553,8 @@ def expect_certified_b(sc: dict) -> Optional[str]:
     router, a firewall's first list, or the second list the code selects for B's address (from the DMZ the selection is opaque: both
     candidate lists would have to deny).  `None`: no expectation (blocks by disabled interfaces, power, missing links)."""
     m = sc["block"]
-    if m in ("router_deny_anyany", "router_deny_dst_exact", "router_deny_four_protocols", "fw_first_stage_deny", "fw_first_stage_empty"):
+    if m in ("router_deny_anyany", "router_deny_dst_exact", "router_deny_four_protocols", "fw_first_stage_deny", "fw_first_stage_empty",
+             "router_wc_hostwc"):  # DENY dst B wildcard 0.0.0.0: "host B" under the real wildcard semantics (Model/Acl.ipMatches)
         return "certifiedB"
     if m in ("router_deny_src_exact", "router_deny_src_range", "router_deny_three_protocols"):
         return "uncertifiedB"
@@ -509,8 +570,10 @@ def expect_certified_n(sc: dict, prot: List[str]) -> str:
     routers are accepted when the class covers their addresses."""
     roles = roles_for(sc)
     names = sorted({x for e in edges(sc) for x in e})
-    if sc["block"] in ("router_deny_dst_exact", "router_deny_three_protocols", "router_deny_four_protocols"):
+    if sc["block"] in ("router_deny_dst_exact", "router_deny_three_protocols", "router_deny_four_protocols", "router_wc_hostwc"):
         return "uncertifiedN"
+    if sc["block"] in WC_FW and sc.get("stage") == "second":
+        return "certifiedN-fw2"
     for h in names:
         role = roles.get(h, "interior")
         side = (h not in prot) or role != "interior"
@@ -527,16 +590,118 @@ def expect_certified_n(sc: dict, prot: List[str]) -> str:
     return "certifiedN-fw2" if sc["block"] == "fw_second_stage_deny" else "certifiedN"
 
 
+DEFENDER_OPS = {"dev_if_enable"}
+# rule-list blocks written with WILDCARD MASKS, boundary values included (C07_wildcard_spec: bit set = ignored):
+#   *_anywc         DENY src 0.0.0.0 wildcard 255.255.255.255  (Cisco "any")
+#   *_hostwc        DENY dst B wildcard 0.0.0.0 ("host B") + DENY dst B's subnet wildcard 0.0.0.255 (contiguous)
+#   *_host_allowlist  the PERMIT-all rule removed, implicit DENY, PERMIT src <an address nobody has> wildcard 0.0.0.0 (host-only allow-list)
+#   *_noncontig     DENY src A wildcard 0.0.0.5 (non-contiguous; matches .10 .11 .14 .15 = A and C)
+WC_ROUTER = {"router_wc_anywc", "router_wc_hostwc", "router_wc_host_allowlist", "router_wc_noncontig"}
+WC_FW = {"fw_wc_anywc", "fw_wc_host_allowlist", "fw_wc_noncontig"}
+NOBODY = "10.0.77.77"
+ORACLE_ONLY = ("router_deny_dst_b_only", "fw_deny_dst_b_only", "router_wc_host_allowlist", "fw_wc_host_allowlist")
+OFF_DEVICE = {"sw2_off": "SW2", "sw1_off": "SW1", "b_off": "B", "fw_off": "FW"}
+
+
+def power_device(sc: dict) -> str:
+    return sc.get("at", "R1") if sc["block"] == "router_off" else OFF_DEVICE[sc["block"]]
+
+
+def transitional_states(sc: dict) -> List[str]:
+    """operating state of the device at each of A's operations (operation k comes k - 1 ticks after the accepted request), from
+    the code's test-then-decrement countdowns: a countdown of d is left at the (d + 1)-th tick (C12_shutdown_timing / C12_boot_timing;
+    Props/C06Power.lean C06_shutdown_window / C06_boot_window / C06_reset_window)"""
+    d, u, n = sc.get("shut", 2), sc.get("boot", 0), len(sc["post_ops"])
+    if sc["phase"] == "countdown":
+        seq = ["SHUTTING_DOWN"] * (d + 1) + ["OFF"] * n
+    elif sc["phase"] == "boot":
+        seq = ["BOOTING"] * (u + 1) + ["ON"] * n
+    else:
+        seq = ["SHUTTING_DOWN"] * (d + 1) + ["BOOTING"] * (u + 1) + ["ON"] * n
+    return seq[:n]
+
+
+def transitional_scenarios(rng: Rng, every_duration: bool) -> List[dict]:
+    """ENUMERATED family: a block that is in force DURING a transitional power state.  For every kind of device on the path (switch
+    on A's side, switch on B's side, router, second router, firewall from each zone pair sampled, host B itself) x every window
+    (SHUTTING_DOWN countdown after an accepted shutdown; BOOTING countdown after an accepted startup of a device that was OFF; the
+    reset window SHUTTING_DOWN -> OFF -> BOOTING) x positive durations (quick: one of 1, 2, 3 (the default), 5 per scenario; thorough:
+    all of them), A sends traffic in the step of the request AND at every later tick of the window (the operation list is as long as
+    the window).  The oracle is the usual one: B's side as in the run in which A idles."""
+    devices = [("switched", "sw1_off", {}), ("switched", "sw2_off", {}), ("switched", "b_off", {}),
+               ("routed", "router_off", {"routers": 1, "at": "R1"}), ("routed", "router_off", {"routers": 2, "at": "R2"}),
+               ("routed", "sw2_off", {"routers": 1, "at": "R1"}), ("routed", "b_off", {"routers": 1, "at": "R1"}),
+               ("firewall", "fw_off", None), ("firewall", "b_off", None),
+               ("wireless", "router_off", {"routers": 2, "at": "R1"}), ("wireless", "router_off", {"routers": 2, "at": "R2"})]
+    attack = ["ping", "data_manip", "db_query_new", "port_scan_tcp", "port_scan_udp", "c_ping", "ransomware", "dos", "ftp_send",
+              "web_get", "port_scan_none", "ping_scan", "term_login"]
+    out = []
+    for fam, block, extra in devices:
+        for phase in ("countdown", "boot", "reset"):
+            for d in ([1, 2, 3, 5] if every_duration else [rng.choice([1, 2, 3, 3, 5])]):
+                sc: Dict[str, Any] = {"family": fam, "block": block, "phase": phase, "rule_pos": 0,
+                                      "via": rng.choice(["request", "method"])}
+                if extra is None:
+                    za = rng.choice(["ext", "int", "dmz"])
+                    sc["a_zone"], sc["b_zone"] = za, rng.choice([z for z in ("ext", "int", "dmz") if z != za])
+                else:
+                    sc.update(extra)
+                u = rng.choice([1, 2, 3])
+                sc["shut"] = d if phase != "boot" else rng.choice([0, 2])
+                if phase != "countdown":
+                    sc["boot"] = d if phase == "boot" else u
+                window = {"countdown": d + 1 + 2, "boot": d + 1, "reset": d + 1 + u + 1}[phase]  # countdown: two more ops once OFF
+                sc["pre_ops"] = [rng.choice(["ping", "db_connect", "tick", "c_ping", "port_scan_tcp"])]
+                sc["post_ops"] = [rng.choice(attack) for _ in range(window)]
+                if rng.chance(1, 2):
+                    # an attempt to re-enable the device's interfaces inside the window (replaces one of A's operations, never the last)
+                    sc["post_ops"][rng.range(0, max(0, window - 2))] = "dev_if_enable"
+                out.append(sc)
+    return out
+
+
 def apply_block(sc: dict, sim, N, info, timestep_fn):
     from primaite.simulator.network.hardware.nodes.network.router import ACLAction
     m = sc["block"]
     pos = sc.get("rule_pos", 0)
     b_ip = info["b_ip"]
 
+    def _power(n, verb):
+        # the ordinary node request (what the node-shutdown / node-startup / node-reset actions send) or the method behind it
+        if sc.get("via") == "request":
+            resp = sim.network.apply_request(["node", n.config.hostname, verb], {})
+            if resp.status != "success":
+                raise RuntimeError(f"transitional scenario: request {verb} on {n.config.hostname} answered {resp.status}")
+        else:
+            ok = {"shutdown": n.power_off, "startup": n.power_on, "reset": n.reset}[verb]()
+            if not ok:
+                raise RuntimeError(f"transitional scenario: {verb} on {n.config.hostname} refused")
+        info["pw_line"](f"pw {verb}")
+
+    def set_boot(n):
+        n.config.start_up_duration = sc["boot"]
+        info["pw_line"](f"pw-updur {sc['boot']}")
+
     def power_off(n):
+        phase = sc.get("phase")
+        if phase == "countdown":
+            # the block is the ACCEPTED shutdown: A's operations follow at once, one per tick of the countdown (no waiting for OFF)
+            _power(n, "shutdown")
+            return
+        if phase == "reset":
+            # reset = SHUTTING_DOWN (shut ticks) -> OFF -> BOOTING (boot ticks) -> ON: the whole window is a block
+            set_boot(n)
+            _power(n, "reset")
+            return
         n.power_off()
+        if "pw_line" in info:
+            info["pw_line"]("pw shutdown")
         for _ in range(n.config.shut_down_duration + 2):
             timestep_fn()
+        if phase == "boot":
+            # the device is OFF; the defender starts it: it stays BOOTING (not ON) for `boot` more ticks
+            set_boot(n)
+            _power(n, "startup")
 
     if m == "sw1_uplink_disabled":
         N["SW1"].network_interface[6].disable()
@@ -555,7 +720,7 @@ def apply_block(sc: dict, sim, N, info, timestep_fn):
         name = sc["remove"]
         sim.network.remove_link(info["links"][name])
     elif m in ("sw2_off", "sw1_off", "b_off", "router_off", "fw_off"):
-        power_off(N[{"sw2_off": "SW2", "sw1_off": "SW1", "b_off": "B", "router_off": sc.get("at", "R1"), "fw_off": "FW"}[m]])
+        power_off(N[power_device(sc)])
     elif m.startswith("router_deny"):
         r = N[sc.get("at", "R1")]
         if m == "router_deny_anyany":
@@ -577,6 +742,40 @@ def apply_block(sc: dict, sim, N, info, timestep_fn):
             # every value frame.ip.protocol can take: THIS is a block (three rules are not: protocol "none" passes)
             for i, pr in enumerate(("tcp", "udp", "icmp", "none")):
                 r.acl.add_rule(action=ACLAction.DENY, protocol=pr, position=pos + i)
+    elif m == "wap_disabled":
+        N[sc.get("at", "R1")].wireless_access_point.disable()
+    elif m == "wap_other_frequency":
+        from primaite.simulator.network.airspace import AirSpaceFrequency
+        r = N[sc.get("at", "R2")]
+        wap = r.wireless_access_point
+        r.configure_wireless_access_point(wap.ip_address, wap.subnet_mask, AirSpaceFrequency._registry["WIFI_5"])
+    elif m in WC_ROUTER or m in WC_FW:
+        if m in WC_ROUTER:
+            lst = N[sc.get("at", "R1")].acl
+        else:
+            fw = N["FW"]
+            first = {"ext": fw.external_inbound_acl, "int": fw.internal_outbound_acl, "dmz": fw.dmz_outbound_acl}[sc["a_zone"]]
+            second = {"ext": fw.external_outbound_acl, "int": fw.internal_inbound_acl, "dmz": fw.dmz_inbound_acl}[sc["b_zone"]]
+            lst = first if sc.get("stage", "first") == "first" else second
+        a_ip = info["a_ip"]
+        kind = m.split("_wc_")[1]
+        if kind == "anywc":
+            lst.add_rule(action=ACLAction.DENY, src_ip_address="0.0.0.0", src_wildcard_mask="255.255.255.255", position=pos)
+        elif kind == "hostwc":
+            lst.add_rule(action=ACLAction.DENY, dst_ip_address=b_ip, dst_wildcard_mask="0.0.0.0", position=pos)
+            lst.add_rule(action=ACLAction.DENY, dst_ip_address=b_ip, dst_wildcard_mask="0.0.0.255", position=pos + 1)
+        elif kind == "host_allowlist":
+            lst.remove_rule(10)
+            if m in WC_ROUTER:
+                # a router's list is born with PERMIT ARP-ports (22) and PERMIT ICMP (23): an allow-list keeps neither (genuine ARP
+                # packets are exempt from the list anyway)
+                lst.remove_rule(22)
+                lst.remove_rule(23)
+            lst.implicit_action = ACLAction.DENY
+            lst.implicit_rule.action = ACLAction.DENY
+            lst.add_rule(action=ACLAction.PERMIT, src_ip_address=NOBODY, src_wildcard_mask="0.0.0.0", position=pos)
+        elif kind == "noncontig":
+            lst.add_rule(action=ACLAction.DENY, src_ip_address=a_ip, src_wildcard_mask="0.0.0.5", position=pos)
     elif m == "router_port_a_disabled":
         N[sc.get("at", "R1")].disable_port(1)
     elif m == "router_port_b_disabled":
@@ -699,6 +898,13 @@ def do_op(op: str, N, info) -> str:
         return str(wb.get_webpage())
     if op == "tick":
         return "tick"
+    if op == "dev_if_enable":
+        # DEFENDER-side operation of the transitional family (kept in the idle run too): somebody tries to bring the interfaces of the
+        # device that is being powered off / booted back up (enable() must refuse while the node is not ON: POp.ifEnable)
+        dev = N[info["power_device"]]
+        out = ",".join(str(bool(ni.enable())) for _, ni in sorted(dev.network_interface.items()))
+        info["pw_line"]("pw ifenable")
+        return out
     raise ValueError(op)
 
 
@@ -712,6 +918,8 @@ def _run_once(sc: dict, with_block: bool, post_ops: List[str], wrappers: bool, p
     from primaite.simulator.network.protocols.arp import ARPPacket
     from primaite.simulator.system.core.session_manager import SessionManager
     sim, N, info = build(sc)
+    if sc.get("phase"):
+        info["power_device"] = power_device(sc)
     t = {"n": 0}
     log: List[str] = []
     errors: List[str] = []
@@ -725,6 +933,27 @@ def _run_once(sc: dict, with_block: bool, post_ops: List[str], wrappers: bool, p
             if hasattr(n, attr):
                 owner[id(getattr(n, attr))] = (n, attr)
 
+    # power correspondence (transitional scenarios): every power request, every tick and every re-enable attempt performed on the device
+    # is ALSO a line for the Lean driver, which executes the translated programs of Model/FilterPower.lean (`exec`); the device's
+    # (operating state, interface flags) after each line is compared with the model's answer in run()
+    pw = {"lines": [], "impl": []}
+    pw_dev = N.get(power_device(sc)) if (sc.get("phase") and with_block) else None
+
+    def pw_bits(kind):
+        out = ""
+        for _p, ni in sorted(pw_dev.network_interface.items()):
+            if kind == "enabled":
+                out += "1" if ni.enabled else "0"
+            else:
+                out += "1" if (not hasattr(ni, "_connected_link") or ni._connected_link is not None) else "0"
+        return out
+
+    def pw_line(line):
+        if pw_dev is not None and (pw["lines"] or line.startswith("pw-new")):
+            pw["lines"].append(line)
+            pw["impl"].append(f"{pw_dev.operating_state.name} {pw_bits('enabled')}")
+    info["pw_line"] = pw_line
+
     def tick():
         try:
             sim.pre_timestep(t["n"])
@@ -732,14 +961,16 @@ def _run_once(sc: dict, with_block: bool, post_ops: List[str], wrappers: bool, p
         except Exception as e:  # a timestep that raises is C01's business; recorded, the run goes on
             errors.append(f"tick: {type(e).__name__}: {str(e)[:80]}")
         t["n"] += 1
+        pw_line("pw tick")
 
-    def guarded(op):
+    def guarded(op, then_tick=True):
         try:
             log.append(f"{op}={do_op(op, N, info)}")
         except Exception as e:  # an operation that raises is recorded (C01's business) but must still not touch B
             errors.append(f"{op}: {type(e).__name__}: {str(e)[:80]}")
             log.append(f"{op}=raised:{type(e).__name__}")
-        tick()
+        if then_tick:
+            tick()
 
     real_isp, real_tx, real_srx, real_proc = (AccessControlList.is_permitted, Link.transmit_frame, SessionManager.receive_frame,
                                               Router.process_frame)
@@ -911,6 +1142,30 @@ def _run_once(sc: dict, with_block: bool, post_ops: List[str], wrappers: bool, p
             frame_viol.append(f"{d[0].config.hostname} sent on a frame its {d[1]} denied")
         return real_tx(self, sender_nic, frame)
 
+    from primaite.simulator.network.airspace import AirSpace
+    real_air = AirSpace.transmit
+
+    class _AirWire:
+        """the airspace seen from one sender as a wire to the other enabled access point of its frequency (at most one: topo_lines)"""
+        def __init__(self, sender, peers):
+            self.endpoint_a, self.endpoint_b = sender, (peers[0] if peers else None)
+
+    def air_tx(self, frame, sender_network_interface):
+        peers = [w for w in self.wireless_interfaces_by_frequency.get(sender_network_interface.frequency.frequency_hz, [])
+                 if w != sender_network_interface and w.enabled]
+        model_ok["air"] = model_ok.get("air", 0) + 1
+        holder = {"done": False}
+
+        def once(_self, _nic, _frame):
+            holder["done"] = True
+        nonlocal real_tx
+        keep_tx, real_tx = real_tx, once
+        try:
+            tx(_AirWire(sender_network_interface, peers), sender_network_interface, frame)  # same checks as on a cable
+        finally:
+            real_tx = keep_tx
+        return real_air(self, frame, sender_network_interface)
+
     def srx(self, frame, from_network_interface):
         d = denied.get(id(frame))
         if d is not None and self.node is d[0]:
@@ -927,6 +1182,7 @@ def _run_once(sc: dict, with_block: bool, post_ops: List[str], wrappers: bool, p
         if wrappers:
             es.enter_context(mock.patch.object(AccessControlList, "is_permitted", isp))
             es.enter_context(mock.patch.object(Link, "transmit_frame", tx))
+            es.enter_context(mock.patch.object(AirSpace, "transmit", air_tx))
             es.enter_context(mock.patch.object(SessionManager, "receive_frame", srx))
             es.enter_context(mock.patch.object(Router, "process_frame", proc))
             es.enter_context(mock.patch.object(Switch, "receive_frame", swrx))
@@ -935,16 +1191,34 @@ def _run_once(sc: dict, with_block: bool, post_ops: List[str], wrappers: bool, p
         tick()
         for op in sc["pre_ops"]:
             guarded(op)
+        if pw_dev is not None:
+            pw_line(f"pw-new {pw_dev.config.start_up_duration} {pw_dev.config.shut_down_duration} {pw_bits('enabled')} {pw_bits('linked')}")
         if with_block:
             apply_block(sc, sim, N, info, tick)
-        tick()
+        # transitional scenarios (`phase`): the first operation of A falls into the very step of the accepted request, the k-th one
+        # k - 1 ticks later; nothing is ticked after the last one (a `boot` / `reset` window must not have ended when B is read)
+        phase = sc.get("phase")
+        if not phase:
+            tick()
         at_block = {h: node_obs(N[h]) for h in prot}
         topo = topo_lines(sc, sim, N, prot, info) if (with_block or sc.get("_want_topo")) else []
         to_prot["on"] = True
-        for op in post_ops:
-            guarded(op)
-        tick()
-    return {"obs": {h: node_obs(N[h]) for h in prot}, "at_block": at_block, "topo": topo, "to_prot": to_prot["n"], "to_prot_arp": to_prot["arp"], "log": log, "errors": errors,
+        n_err_at_block = len(errors)
+        power_trace = []
+        dev = N.get(power_device(sc)) if phase else None
+        for i, op in enumerate(post_ops):
+            if dev is not None:
+                power_trace.append(dev.operating_state.name)
+            guarded(op, then_tick=not (phase and i == len(post_ops) - 1))
+        if not phase:
+            tick()
+        if phase and with_block:
+            want = transitional_states(sc)
+            if power_trace != want:
+                # the scenario is built so that A acts at EVERY tick of the window; if the device's states at A's operations are
+                # not the expected ones the scenario does not test what it says (C12 owns the timing itself)
+                errors.append(f"power-trace: {power_trace} expected {want}")
+    return {"post_errors": [e for e in errors[n_err_at_block:] if not e.startswith("power-trace")], "pw": pw, "power_trace": power_trace, "obs": {h: node_obs(N[h]) for h in prot}, "at_block": at_block, "topo": topo, "to_prot": to_prot["n"], "to_prot_arp": to_prot["arp"], "log": log, "errors": errors,
             "frame_viol": frame_viol, "closure": closure, "model_ok": model_ok, "model_bad": model_bad[:3]}
 
 
@@ -968,7 +1242,7 @@ def run_scenario(sc: dict, control: bool = True) -> dict:
     logging.disable(logging.WARNING)  # the simulator logs link removals etc. at INFO to the console
     prot = protected(sc)
     attack = _run_once(sc, True, sc["post_ops"], True, prot)
-    idle = _run_once(sc, True, ["tick"] * len(sc["post_ops"]), True, prot)
+    idle = _run_once(sc, True, [o if o in DEFENDER_OPS else "tick" for o in sc["post_ops"]], True, prot)
     violations = []
     if attack["to_prot"] != idle["to_prot"]:
         # validates the cut theorem's software hypothesis on the implementation: what a blocking router / firewall emits
@@ -979,6 +1253,11 @@ def run_scenario(sc: dict, control: bool = True) -> dict:
         violations.append({"kind": "blocking-element-arp-request-to-protected", "what":
                            f"blocking element sent {attack['to_prot_arp']} ARP requests of its own into the protected side after the "
                            f"block, {idle['to_prot_arp']} when A idles"})
+    for e in sorted(set(attack["post_errors"])):
+        # an exception out of the implementation while A operates against a block that should simply hold (an operation of A, or the
+        # timestep after it: frame processing is synchronous, the exception comes out of a receive path) is itself a failing input
+        violations.append({"kind": "exception-during-operation", "what": f"the implementation raised while A operated against the block: {e}",
+                           "exc": e.split(":")[1].strip() if ":" in e else e})
     for h in prot:
         d = _first_diff(idle["obs"][h], attack["obs"][h], h)
         if d:
@@ -987,7 +1266,7 @@ def run_scenario(sc: dict, control: bool = True) -> dict:
     violations.sort(key=lambda v: 0 if v.get("node") == "B" else 1)
     for v in sorted(set(attack["frame_viol"])):
         violations.append({"kind": "denied-frame-not-inert", "what": v})
-    res = {"violations": violations, "log": attack["log"], "errors": attack["errors"], "nontrivial": None, "protected": prot,
+    res = {"pw": attack["pw"], "power_trace": attack["power_trace"], "violations": violations, "log": attack["log"], "errors": attack["errors"], "nontrivial": None, "protected": prot,
            "topo": attack["topo"], "closure": attack["closure"], "topo_ctl": [],
            "model_ok": {k: attack["model_ok"].get(k, 0) + idle["model_ok"].get(k, 0)
                         for k in set(attack["model_ok"]) | set(idle["model_ok"])},
@@ -996,18 +1275,21 @@ def run_scenario(sc: dict, control: bool = True) -> dict:
         sc2 = dict(sc, missing_links=[], _want_topo=True)
         ctl = _run_once(sc2, False, sc["post_ops"], False, prot)
         res["topo_ctl"] = ctl["topo"]  # the same network WITHOUT the block: both certificates must reject it
-        ctl_idle = _run_once(sc2, False, ["tick"] * len(sc["post_ops"]), False, prot)
+        ctl_idle = _run_once(sc2, False, [o if o in DEFENDER_OPS else "tick" for o in sc["post_ops"]], False, prot)
         res["nontrivial"] = any(_first_diff(ctl_idle["obs"][h], ctl["obs"][h], h) for h in prot)
     return res
 
 
 # ------------------------------------------------------------------------------------------ generation
 def gen_scenario(rng: Rng, max_ops: int = 8) -> dict:
-    fam = rng.choice(["switched", "routed", "routed", "firewall", "firewall"])
+    fam = rng.choice(["switched", "routed", "routed", "firewall", "firewall", "wireless"])
     sc: Dict[str, Any] = {"family": fam, "block": rng.choice(BLOCKS[fam]), "rule_pos": rng.choice([0, 0, 1, 3, 9])}
     if fam == "routed":
         sc["routers"] = rng.choice([1, 1, 2])
         sc["at"] = "R1" if sc["routers"] == 1 else rng.choice(["R1", "R2"])
+    if fam == "wireless":
+        sc["routers"] = 2
+        sc["at"] = rng.choice(["R1", "R2"])
     if fam == "firewall":
         za = rng.choice(["ext", "int", "dmz"])
         sc["a_zone"], sc["b_zone"] = za, rng.choice([z for z in ("ext", "int", "dmz") if z != za])
@@ -1018,7 +1300,8 @@ def gen_scenario(rng: Rng, max_ops: int = 8) -> dict:
             sc["b_behind_router"] = True
     if sc["block"] in ("missing_link", "removed_link"):
         cands = {"switched": ["SW1-SW2", "SW2-B"], "routed": ["SW1-R1", "R1-SW2" if sc.get("routers") == 1 else "R1-R2", "SW2-B"],
-                 "firewall": ["SW1-FW", "FW-RI" if sc.get("b_behind_router") else "FW-SW2", "SW2-B"]}[fam]
+                 "firewall": ["SW1-FW", "FW-RI" if sc.get("b_behind_router") else "FW-SW2", "SW2-B"],
+                 "wireless": ["SW1-R1", "R2-SW2", "SW2-B"]}[fam]
         name = rng.choice(cands)
         if sc["block"] == "missing_link":
             sc["missing_links"] = [name]
@@ -1072,11 +1355,52 @@ def directed_scenarios(rng: Rng) -> List[dict]:
     return out
 
 
+def wildcard_scenarios(rng: Rng) -> List[dict]:
+    """ENUMERATED every run: rule-list blocks written with wildcard masks (both boundary masks, a contiguous and a non-contiguous one) on
+    a router, on both wireless routers, and on each of the firewall's SIX lists (three first-stage, three second-stage)"""
+    tail = ["ping", "data_manip", "db_query_new", "port_scan_tcp", "port_scan_udp", "c_ping", "dos", "port_scan_none", "ftp_send"]
+    out = []
+
+    def mk(**kw):
+        sc = dict({"rule_pos": rng.choice([0, 1, 3]), "pre_ops": [rng.choice(["ping", "db_connect", "tick"])],
+                   "post_ops": [rng.choice(tail) for _ in range(4)]}, **kw)
+        out.append(sc)
+    for b in sorted(WC_ROUTER):
+        mk(family="routed", block=b, routers=1, at="R1")
+    for at in ("R1", "R2"):
+        for b in ("router_wc_anywc", "router_wc_host_allowlist"):
+            mk(family="wireless", block=b, routers=2, at=at)
+    for stage, za, zb in (("first", "ext", "int"), ("first", "int", "ext"), ("first", "dmz", "int"),
+                          ("second", "int", "ext"), ("second", "ext", "int"), ("second", "ext", "dmz")):
+        for b in ("fw_wc_anywc", "fw_wc_host_allowlist"):
+            mk(family="firewall", block=b, a_zone=za, b_zone=zb, stage=stage)
+    mk(family="firewall", block="fw_wc_noncontig", a_zone="ext", b_zone="int", stage="first")
+    return out
+
+
+def wireless_scenarios(rng: Rng) -> List[dict]:
+    """ENUMERATED every run: each way the wireless path can be blocked x the wireless router it is done on"""
+    tail = ["ping", "data_manip", "db_query_new", "port_scan_tcp", "port_scan_udp", "c_ping", "ping_gw", "dos", "port_scan_none"]
+    out = []
+    for block in ("router_deny_anyany", "router_deny_dst_exact", "router_deny_src_range", "router_off", "wap_disabled", "wap_other_frequency"):
+        for at in ("R1", "R2"):
+            sc = {"family": "wireless", "block": block, "routers": 2, "at": at, "rule_pos": rng.choice([0, 1, 3]),
+                  "pre_ops": [rng.choice(["ping", "db_connect", "tick"])], "post_ops": [rng.choice(tail) for _ in range(4)]}
+            if block == "router_off":
+                sc["shut"] = rng.choice([0, 2])
+            out.append(sc)
+    return out
+
+
 def sig_of(sc: dict, v: dict) -> dict:
     s = {"kind": v["kind"], "family": sc["family"], "block": sc["block"]}
+    if sc.get("phase"):
+        s["phase"] = sc["phase"]
     if sc["family"] == "firewall":
         s["a_zone"] = sc.get("a_zone")
         s["b_behind_router"] = bool(sc.get("b_behind_router"))
+    if v["kind"] == "exception-during-operation":
+        s["exc"] = v.get("exc")
     if v["kind"] == "protected-state-changed":
         s["node"] = v["node"]
         s["where"] = v["diff"].split(":")[0].split("/")[1].split("[")[0] if "/" in v["diff"].split(":")[0] else ""
@@ -1090,10 +1414,29 @@ def run(ctx: Ctx):
     rng = ctx.rng.fork("net")
     for k, sc in enumerate(directed_scenarios(ctx.rng.fork("net-directed"))):
         scenarios.append((f"directed:{k}", sc))
-    for k in range(ctx.scale(45, 900)):
+    for k, sc in enumerate(wildcard_scenarios(ctx.rng.fork("net-wildcard"))):
+        scenarios.append((f"wildcard:{k}", sc))
+    for k, sc in enumerate(wireless_scenarios(ctx.rng.fork("net-wireless"))):
+        scenarios.append((f"wireless:{k}", sc))
+    for k, sc in enumerate(transitional_scenarios(ctx.rng.fork("net-transitional"), every_duration=ctx.thorough)):
+        scenarios.append((f"transitional:{k}", sc))
+    for k in range(ctx.scale(30, 900)):
         scenarios.append((f"gen:{k}", gen_scenario(rng, max_ops=ctx.scale(6, 10))))
     clean = 0
-    results = [(name, sc, run_scenario(sc, control=True)) for name, sc in scenarios]
+    results, scen_bad = [], []
+    for name, sc in scenarios:
+        try:
+            results.append((name, sc, run_scenario(sc, control=True)))
+        except Exception as e:
+            # the implementation (or the rig) raised OUTSIDE A's operations - while the network was built, the block applied, the state
+            # read: no operation of A to blame; reported as a broken obligation, the other scenarios go on (never an internal error)
+            import traceback
+            tb = traceback.extract_tb(e.__traceback__)
+            scen_bad.append(f"{name} {sc['family']}/{sc['block']}: {type(e).__name__}: {str(e)[:80]} at {tb[-1].filename.split('/')[-1]}:{tb[-1].lineno}")
+            ctx.count(f"net:scenario-raised:{type(e).__name__}")
+    scenarios = [(n, sc) for n, sc, _ in results]
+    ctx.oblige("rig:R-net every scenario could be built, blocked and read on the implementation without an exception", "correspondence",
+               not scen_bad, "; ".join(scen_bad[:5]))
     from harness.lib.core import load_findings, run_driver, sig_matches
     # recorded entries that Ctx.finish handles: open findings (KNOWN-FINDING) and observations (behaviour the stronger-than-the-
     # property oracle of this rig flags although host B is untouched; counted in the evidence, neither violation nor finding)
@@ -1132,11 +1475,14 @@ def run(ctx: Ctx):
         ctx.count(f"net:{'certifiedC' if okc else 'uncertifiedC'}:{sc['block']}")
         ctx.count(f"net:{chunk[-1].split()[0]}:{sc['block']}")
         want_n = expect_certified_n(sc, res["protected"])
-        if chunk[-1].split()[0] != want_n and sc["block"] not in ("router_deny_dst_b_only", "fw_deny_dst_b_only"):
+        if chunk[-1].split()[0] != want_n and sc["block"] not in ORACLE_ONLY:
             certn_bad.append(f"{name} {sc['family']}/{sc['block']}: {chunk[-1]}, expected {want_n}")
         # which theorem covers the scenario, and what it still assumes
         roles = set(roles_for(sc).values())
-        if sc["block"] in ("router_deny_dst_b_only", "fw_deny_dst_b_only"):
+        if sc["block"].endswith("_wc_host_allowlist"):
+            ctx.count("net:theorem:none(host-only allow-list: element-level verdict theorems + oracle; the class scan denyClassCheck does not "
+                      "prove a PERMIT rule for ANOTHER exact source disjoint from the class - certificate incomplete, not unsound)")
+        elif sc["block"] in ("router_deny_dst_b_only", "fw_deny_dst_b_only"):
             ctx.count("net:theorem:none(history scenario: only B is protected; element-level C06_verdict_history_free + oracle)")
         elif chunk[-1] == "certifiedN":
             ctx.count("net:theorem:C06_certifiedN_unchanged:no-hypothesis")
@@ -1152,7 +1498,7 @@ def run(ctx: Ctx):
             ctx.count("net:theorem:none(oracle only: the closure hypothesis of the class theorem does not hold in this run)")
         else:
             ctx.count("net:theorem:C06_certifiedC_unchanged:closure+software-hypotheses")
-        oracle_only = sc["block"] in ("router_deny_dst_b_only", "fw_deny_dst_b_only")  # B alone is protected: no certificate speaks about it
+        oracle_only = sc["block"] in ORACLE_ONLY  # B alone is protected: no certificate speaks about it
         if sc["block"] in CERTIFIABLE and not ok:
             cert_bad.append(f"{name} {sc['family']}/{sc['block']}: {chunk[-3]}")
         if sc["block"] not in CERTIFIABLE and ok:
@@ -1188,6 +1534,46 @@ def run(ctx: Ctx):
                 # software answers): it does not hold for this run, so the class theorem does not cover the scenario (oracle only)
                 ctx.count(f"net:closure-hypothesis-does-not-hold:{sc['block']}")
                 res["closure_fails"] = True
+    pw_lines, pw_bad, pw_n = [], [], 0
+    for name, sc, res in results:
+        if res["pw"]["lines"]:
+            pw_lines += ["reset"] + res["pw"]["lines"]
+    pw_ans = run_driver("drv_c06", pw_lines) if pw_lines else []
+    k = 0
+    for name, sc, res in results:
+        if not res["pw"]["lines"]:
+            continue
+        k += 1  # reset
+        got = pw_ans[k:k + len(res["pw"]["lines"])]
+        k += len(res["pw"]["lines"])
+        pw_n += len(got)
+        for i, (line, a, b) in enumerate(zip(res["pw"]["lines"], res["pw"]["impl"], got)):
+            ctx.count("net:power-model:" + line.split()[0] + (":" + line.split()[1] if line.startswith("pw ") else ""))
+            if a != b:
+                pw_bad.append(f"{name} {sc['family']}/{sc['block']}/{sc['phase']}: after `{line}` (line {i}) the device is `{a}`, the model `{b}`")
+                if len(pw_bad) <= 3:
+                    ctx.violation({"kind": "power-model-vs-impl", "rig": "net", "op": line.split()[-1] if line.startswith("pw ") else line.split()[0]},
+                                  f"{sc['family']}/{sc['block']}/{sc['phase']}: {power_device(sc)} after `{line}` is `{a}` (operating state, interface "
+                                  f"flags); the translated power programs of Model/FilterPower.lean give `{b}`",
+                                  {"rig": "net", "scenario": sc, "pw_lines": res["pw"]["lines"][:i + 1], "impl": res["pw"]["impl"][:i + 1],
+                                   "model": got[:i + 1], "from": name})
+                break
+    ctx.oblige("rig:R-net power correspondence: the device of every transitional scenario and the Lean interpreter of the translated power "
+               "programs (drv_c06 `pw` lines = the requests, ticks and re-enable attempts the rig performs) agree on (operating state, "
+               f"interface flags) after every line ({pw_n} lines)", "correspondence", not pw_bad, "; ".join(pw_bad[:5]))
+    trace_bad = []
+    for name, sc, res in results:
+        if sc.get("phase"):
+            for stt in res["power_trace"]:
+                ctx.count(f"net:transitional:{sc['phase']}:A-acts-while-{power_device(sc)}-is-{stt}")
+            ctx.count(f"net:transitional:duration={sc['boot'] if sc['phase'] == 'boot' else sc['shut']}")
+            bad = [e for e in res["errors"] if e.startswith("power-trace")]
+            if bad:
+                trace_bad.append(f"{name} {sc['family']}/{sc['block']}/{sc['phase']}: {bad[0]}")
+    ctx.oblige("rig:R-net transitional family: in every scenario A's operations fall on EVERY tick of the window (the step of the accepted "
+               "shutdown / startup / reset request and each later tick while the device is SHUTTING_DOWN / BOOTING), as the countdown "
+               "theorems C06_shutdown_window / C06_boot_window / C06_reset_window say", "correspondence", not trace_bad,
+               "; ".join(trace_bad[:5]))
     ctx.oblige("rig:R-net the proved cut certificate accepts the real post-block network", "correspondence", not cert_bad,
                "; ".join(cert_bad[:5]))
     ctx.oblige("rig:R-net the proved class-aware certificate (certifyC) accepts the real post-block network of EVERY scenario",
